@@ -116,4 +116,429 @@ theorem joinDot_append_join (as bs : List Text) (hb : bs ≠ []) :
       simp only [List.cons_append] at ih ⊢
       rw [joinDot_cons_cons, joinDot_cons_cons, ih]
 
+/-! ### unfolding the well-founded definitions once -/
+
+theorem scanRaw_nil : scanRaw [] = none := by rw [scanRaw.eq_def]
+
+theorem scanRaw_cons (sz : UInt8) (rest : Bytes) : scanRaw (sz :: rest) =
+    if 192 ≤ sz.toNat then
+      match rest with
+      | [] => none
+      | lo :: _ => some ([], 2, some ((sz.toNat - 192) * 256 + lo.toNat))
+    else if 64 ≤ sz.toNat then none
+    else if sz.toNat = 0 then some ([], 1, none)
+    else if rest.length < sz.toNat then none
+    else
+      match scanRaw (rest.drop sz.toNat) with
+      | none => none
+      | some (ls, n, p) => some (rest.take sz.toNat :: ls, 1 + sz.toNat + n, p) := by
+  rw [scanRaw.eq_def]; rfl
+
+theorem unpackName_hit {I : Idna} {buf : Bytes} {off : Nat} {cache : Cache} {depth : Nat} {r}
+    (h : cache.lookup off = some (some r)) : unpackName I buf off cache depth = some (r, cache) := by
+  rw [unpackName]; split <;> simp_all
+
+theorem unpackName_loop {I : Idna} {buf : Bytes} {off : Nat} {cache : Cache} {depth : Nat}
+    (h : cache.lookup off = some none) : unpackName I buf off cache depth = none := by
+  rw [unpackName]; split <;> simp_all
+
+theorem unpackName_fresh {I : Idna} {buf : Bytes} {off : Nat} {cache : Cache} {depth : Nat}
+    (h : cache.lookup off = none) : unpackName I buf off cache depth =
+    if maxPointerDepth < depth then none
+    else
+    match scanRaw (buf.drop off) with
+    | none => none
+    | some (raws, n, ptr) =>
+      match mapLabels I raws with
+      | none => none
+      | some labels =>
+        match ptr with
+        | none => some ((joinDot labels, n), (off, some (joinDot labels, n)) :: (off, none) :: cache)
+        | some t =>
+          match unpackName I buf t ((off, none) :: cache) (depth + 1) with
+          | none => none
+          | some ((label, _), c2) => some ((nameOf labels label, n), (off, some (nameOf labels label, n)) :: c2) := by
+  rw [unpackName]
+  split
+  · simp_all
+  · simp_all
+  · by_cases hd : maxPointerDepth < depth
+    · simp [hd]
+    · simp only [hd, if_false]
+      split
+      · next hs => simp [hs]
+      · next raws n ptr hs =>
+        simp only [hs]
+        split
+        · next hm => simp [hm]
+        · next labels hm =>
+          simp only [hm]
+          split
+          · rfl
+          · rfl
+
+theorem expandName_seen {buf : Bytes} {off : Nat} {seen : List Nat} (h : seen.contains off = true) :
+    expandName buf off seen = none := by
+  rw [expandName]
+  have hm : off ∈ seen := by simpa using h
+  simp [hm]
+
+theorem expandName_fresh {buf : Bytes} {off : Nat} {seen : List Nat} (h : seen.contains off = false) :
+    expandName buf off seen =
+    match scanRaw (buf.drop off) with
+    | none => none
+    | some (raws, _, none) => some (wire raws ++ [0])
+    | some (raws, _, some t) =>
+      match expandName buf t (off :: seen) with
+      | none => none
+      | some e => some (wire raws ++ e) := by
+  rw [expandName]
+  simp only [h, Bool.false_eq_true, dite_false]
+  split
+  · next hs => simp [hs]
+  · next raws n hs => simp [hs]
+  · next raws n t hs => simp only [hs]; rfl
+
+theorem nameField_nil (buf : Bytes) (pos : Nat) : nameField buf [] pos = .stop := by
+  rw [nameField.eq_def]
+
+theorem nameField_cons (buf : Bytes) (sz : UInt8) (rest : Bytes) (pos : Nat) : nameField buf (sz :: rest) pos =
+    if 192 ≤ sz.toNat then
+      if rest = [] then .stop
+      else match expandName buf pos [] with
+        | none => .fail
+        | some e => .done e 2
+    else if 64 ≤ sz.toNat ∨ rest.length < sz.toNat then .stop
+    else if sz.toNat = 0 then .done [0] 1
+    else
+      match nameField buf (rest.drop sz.toNat) (pos + 1 + sz.toNat) with
+      | .stop => .stop
+      | .fail => .fail
+      | .done out n => .done (sz :: rest.take sz.toNat ++ out) (1 + sz.toNat + n) := by
+  rw [nameField.eq_def]; rfl
+
+theorem plainName_nil : plainName [] = .stop := by rw [plainName.eq_def]
+
+theorem plainName_cons (sz : UInt8) (rest : Bytes) : plainName (sz :: rest) =
+    if 192 ≤ sz.toNat then (if rest = [] then .stop else .ptr)
+    else if 64 ≤ sz.toNat ∨ rest.length < sz.toNat then .stop
+    else if sz.toNat = 0 then .done 1
+    else
+      match plainName (rest.drop sz.toNat) with
+      | .stop => .stop
+      | .ptr => .ptr
+      | .done n => .done (1 + sz.toNat + n) := by
+  rw [plainName.eq_def]; rfl
+
+theorem heur_nil (buf : Bytes) (pos : Nat) : heur buf [] pos = [] := by rw [heur.eq_def]
+
+theorem heur_cons (buf : Bytes) (c : UInt8) (rest : Bytes) (pos : Nat) : heur buf (c :: rest) pos =
+    if 192 ≤ c.toNat ∧ rest ≠ [] then
+      match expandName buf pos [] with
+      | some e => e ++ heur buf (rest.drop 1) (pos + 2)
+      | none => c :: heur buf rest (pos + 1)
+    else c :: heur buf rest (pos + 1) := by
+  rw [heur.eq_def]; rfl
+
+/-! ### labels -/
+
+theorem encText_ascii_nodot (I : Idna) {t : Text} (hne : t ≠ []) (ha : isAscii t = true)
+    (hd : ¬ (46 : UInt8) ∈ t) (hl : t.length < 64) : encText I t = some t := by
+  unfold encText fastPathOk
+  simp [hne, ha, splitDot_nodot t hd, hl]
+
+/-- what a successfully decoded label looks like -/
+theorem decLabel_cases {I : Idna} {raw : Bytes} {p : Text} (h : decLabel I raw = some p) :
+    ¬ (46 : UInt8) ∈ p ∧ (encText I p = some raw ∨ (p = raw ∧ isAscii raw = true)) := by
+  unfold decLabel at h
+  split at h
+  · cases h
+  · next t ht =>
+    split at h
+    · cases h
+    · next e he =>
+      by_cases heq : e = raw
+      · subst heq
+        simp only [if_true] at h
+        split at h
+        · cases h
+        · next hc => cases h; exact ⟨by simpa using hc, Or.inl he⟩
+      · simp only [heq, if_false] at h
+        by_cases ha : isAscii raw = true
+        · simp only [ha, if_true] at h
+          split at h
+          · cases h
+          · next hc => cases h; exact ⟨by simpa using hc, Or.inr ⟨rfl, ha⟩⟩
+        · simp [ha] at h
+
+theorem decLabel_encPart {I : Idna} {raw : Bytes} {p : Text} (h : decLabel I raw = some p)
+    (hne : raw ≠ []) (hl : raw.length < 64) : encPart I p = some raw := by
+  have hlen : raw.length ≠ 0 := by intro h0; exact hne (List.length_eq_zero_iff.mp h0)
+  have h0 : ¬ (raw.length = 0 ∨ 64 ≤ raw.length) := by omega
+  obtain ⟨hd, hc | ⟨rfl, ha⟩⟩ := decLabel_cases h
+  · unfold encPart; rw [hc]; simp only [h0, if_false]
+  · unfold encPart; rw [encText_ascii_nodot I hne ha hd hl]; simp only [h0, if_false]
+
+theorem decLabel_ne_nil {I : Idna} {raw : Bytes} {p : Text} (h : decLabel I raw = some p)
+    (hne : raw ≠ []) : p ≠ [] := by
+  obtain ⟨hd, hc | ⟨rfl, ha⟩⟩ := decLabel_cases h
+  · intro hp; subst hp
+    simp [encText] at hc; exact hne hc
+  · exact hne
+
+theorem encPart_ne_nil {I : Idna} {p : Text} {l : Bytes} (h : encPart I p = some l) : p ≠ [] := by
+  intro hp; subst hp
+  simp [encPart, encText] at h
+
+theorem encPart_len {I : Idna} {p : Text} {l : Bytes} (h : encPart I p = some l) : l ≠ [] ∧ l.length < 64 := by
+  unfold encPart at h
+  split at h
+  · cases h
+  · next l' hl =>
+    split at h
+    · cases h
+    · next hc =>
+      cases h
+      constructor
+      · intro hn; subst hn; simp at hc
+      · omega
+
+/-! ### scanning -/
+
+theorem toNat_ofNat_lt {n : Nat} (h : n < 256) : (UInt8.ofNat n).toNat = n := by
+  simp [UInt8.toNat_ofNat']; omega
+
+theorem wire_cons (l : Bytes) (ls : List Bytes) : wire (l :: ls) = UInt8.ofNat l.length :: l ++ wire ls := by
+  simp [wire]
+
+theorem scanRaw_wire (ls : List Bytes) (rest : Bytes) (h : ∀ l ∈ ls, l ≠ [] ∧ l.length < 64) :
+    scanRaw (wire ls ++ 0 :: rest) = some (ls, (wire ls).length + 1, none) := by
+  induction ls with
+  | nil => simp [wire, scanRaw_cons]
+  | cons l ls ih =>
+    obtain ⟨hne, hl⟩ := h l (by simp)
+    have hpos : 0 < l.length := List.length_pos_iff.mpr hne
+    have htn : (UInt8.ofNat l.length).toNat = l.length := toNat_ofNat_lt (by omega)
+    rw [wire_cons]
+    simp only [List.cons_append, List.append_assoc]
+    rw [scanRaw_cons, htn]
+    have h1 : ¬ 192 ≤ l.length := by omega
+    have h2 : ¬ 64 ≤ l.length := by omega
+    have h3 : ¬ l.length = 0 := by omega
+    have h4 : ¬ (l ++ (wire ls ++ 0 :: rest)).length < l.length := by simp
+    simp only [h1, h2, h3, h4, if_false]
+    rw [List.drop_left, List.take_left, ih (fun l' hl' => h l' (by simp [hl']))]
+    simp; omega
+
+theorem scanRaw_labels_ok : ∀ (k : Nat) (s : Bytes), s.length ≤ k → ∀ ls n p, scanRaw s = some (ls, n, p) →
+    ∀ l ∈ ls, l ≠ [] ∧ l.length < 64 := by
+  intro k
+  induction k with
+  | zero =>
+    intro s hs ls n p h
+    have : s = [] := List.length_eq_zero_iff.mp (by omega)
+    subst this; rw [scanRaw_nil] at h; cases h
+  | succ k ih =>
+    intro s hs ls n p h
+    cases s with
+    | nil => rw [scanRaw_nil] at h; cases h
+    | cons sz rest =>
+      rw [scanRaw_cons] at h
+      by_cases h1 : 192 ≤ sz.toNat
+      · simp only [h1, if_true] at h
+        cases rest with
+        | nil => cases h
+        | cons lo tl => cases h; simp
+      · simp only [h1, if_false] at h
+        by_cases h2 : 64 ≤ sz.toNat
+        · simp [h2] at h
+        · simp only [h2, if_false] at h
+          by_cases h3 : sz.toNat = 0
+          · simp only [h3, if_true] at h; cases h; simp
+          · simp only [h3, if_false] at h
+            by_cases h4 : rest.length < sz.toNat
+            · simp [h4] at h
+            · simp only [h4, if_false] at h
+              cases hrec : scanRaw (rest.drop sz.toNat) with
+              | none => simp [hrec] at h
+              | some r =>
+                obtain ⟨ls', n', p'⟩ := r
+                simp only [hrec] at h
+                cases h
+                intro l hl
+                rcases List.mem_cons.mp hl with rfl | hl
+                · have hlen : (List.take sz.toNat rest).length = sz.toNat := by
+                    rw [List.length_take]; omega
+                  constructor
+                  · intro hn
+                    rw [hn] at hlen; simp at hlen; omega
+                  · omega
+                · exact ih (rest.drop sz.toNat) (by simp at hs ⊢; omega) _ _ _ hrec l hl
+
+/-! ### canonical names: pack then unpack -/
+
+/-- a name text that survives pack/unpack: every part encodes to a label that decodes back to it -/
+def CanonName (I : Idna) (name : Text) : Prop :=
+  name = [] ∨ ∀ p ∈ splitDot name, ∃ l, encPart I p = some l ∧ decLabel I l = some p
+
+def LabelsOk (ls : List Bytes) : Prop := ∀ l ∈ ls, l ≠ [] ∧ l.length < 64
+
+theorem packParts_canon {I : Idna} : ∀ ps : List Text,
+    (∀ p ∈ ps, ∃ l, encPart I p = some l ∧ decLabel I l = some p) →
+    ∃ ls, packParts I ps = some (wire ls) ∧ mapLabels I ls = some ps ∧ LabelsOk ls := by
+  intro ps
+  induction ps with
+  | nil => intro _; exact ⟨[], by simp [packParts, wire], by simp [mapLabels], by simp [LabelsOk]⟩
+  | cons p ps ih =>
+    intro h
+    obtain ⟨l, hl, hdl⟩ := h p (by simp)
+    obtain ⟨ls, h1, h2, h3⟩ := ih (fun q hq => h q (by simp [hq]))
+    refine ⟨l :: ls, ?_, ?_, ?_⟩
+    · simp [packParts, hl, h1, wire_cons]
+    · simp [mapLabels, hdl, h2]
+    · intro x hx
+      rcases List.mem_cons.mp hx with rfl | hx
+      · exact encPart_len hl
+      · exact h3 x hx
+
+theorem packName_canon {I : Idna} {name : Text} (h : CanonName I name) :
+    ∃ ls ps, packName I name = some (wire ls ++ [0]) ∧ mapLabels I ls = some ps ∧ joinDot ps = name ∧ LabelsOk ls := by
+  by_cases hn : name = []
+  · subst hn
+    exact ⟨[], [], by simp [packName, wire], by simp [mapLabels], by simp [joinDot], by simp [LabelsOk]⟩
+  · rcases h with h | h
+    · exact absurd h hn
+    · obtain ⟨ls, h1, h2, h3⟩ := packParts_canon (splitDot name) h
+      exact ⟨ls, splitDot name, by simp [packName, hn, h1], h2, joinDot_splitDot name, h3⟩
+
+theorem unpackName_wire {I : Idna} {buf : Bytes} {off : Nat} {cache : Cache} {depth : Nat}
+    {ls : List Bytes} {ps : List Text} {rest : Bytes}
+    (hw : buf.drop off = wire ls ++ 0 :: rest) (hm : mapLabels I ls = some ps) (hok : LabelsOk ls)
+    (hc : cache.lookup off = none) (hd : depth ≤ maxPointerDepth) :
+    unpackName I buf off cache depth =
+      some ((joinDot ps, (wire ls).length + 1),
+            (off, some (joinDot ps, (wire ls).length + 1)) :: (off, none) :: cache) := by
+  rw [unpackName_fresh hc, hw, scanRaw_wire ls rest hok]
+  have : ¬ maxPointerDepth < depth := by omega
+  simp [this, hm]
+
+/-! ### record data that holds no pointer is left alone -/
+
+theorem heur_inert (buf : Bytes) : ∀ (rd : Bytes) (pos : Nat), heurInert rd = true → heur buf rd pos = rd := by
+  intro rd
+  induction rd with
+  | nil => intro pos _; exact heur_nil buf pos
+  | cons c rest ih =>
+    intro pos h
+    simp only [heurInert, Bool.and_eq_true, Bool.or_eq_true, decide_eq_true_eq, List.isEmpty_iff] at h
+    rw [heur_cons]
+    have hc : ¬ (192 ≤ c.toNat ∧ rest ≠ []) := by
+      rintro ⟨h1, h2⟩
+      rcases h.1 with h3 | h3
+      · omega
+      · exact h2 h3
+    simp only [hc, if_false]
+    rw [ih (pos + 1) h.2]
+
+theorem uint8_eq_zero {c : UInt8} (h : c.toNat = 0) : c = 0 := by
+  apply UInt8.toNat_inj.mp; simpa using h
+
+theorem nameField_plain (buf : Bytes) : ∀ (k : Nat) (rd : Bytes), rd.length ≤ k → ∀ pos,
+    (plainName rd = .stop → nameField buf rd pos = .stop) ∧
+    (∀ n, plainName rd = .done n → nameField buf rd pos = .done (rd.take n) n ∧ n ≤ rd.length) := by
+  intro k
+  induction k with
+  | zero =>
+    intro rd hk pos
+    have : rd = [] := List.length_eq_zero_iff.mp (by omega)
+    subst this
+    simp [plainName_nil, nameField_nil]
+  | succ k ih =>
+    intro rd hk pos
+    cases rd with
+    | nil => simp [plainName_nil, nameField_nil]
+    | cons sz rest =>
+      rw [plainName_cons, nameField_cons]
+      by_cases h1 : 192 ≤ sz.toNat
+      · simp only [h1, if_true]
+        by_cases hr : rest = []
+        · simp [hr]
+        · simp [hr]
+      · simp only [h1, if_false]
+        by_cases h2 : 64 ≤ sz.toNat ∨ rest.length < sz.toNat
+        · simp [h2]
+        · simp only [h2, if_false]
+          by_cases h3 : sz.toNat = 0
+          · have : sz = 0 := uint8_eq_zero h3
+            subst this
+            simp
+          · simp only [h3, if_false]
+            have hlen : (rest.drop sz.toNat).length ≤ k := by simp at hk ⊢; omega
+            obtain ⟨ihs, ihd⟩ := ih (rest.drop sz.toNat) hlen (pos + 1 + sz.toNat)
+            cases hp : plainName (rest.drop sz.toNat) with
+            | stop => simp [ihs hp]
+            | ptr => simp
+            | done n' =>
+              obtain ⟨hf, hn⟩ := ihd n' hp
+              simp only [hf]
+              refine ⟨by simp, ?_⟩
+              intro n hn'
+              cases hn'
+              refine ⟨?_, ?_⟩
+              · have : 1 + sz.toNat + n' = (sz.toNat + n') + 1 := by omega
+                rw [this, List.take_succ_cons, List.take_add]; simp
+              · simp at hn ⊢; omega
+
+theorem walk_plain (buf : Bytes) : ∀ (L : List Field) (rd : Bytes) (pos : Nat),
+    plainWalk L rd = true → walk buf L rd pos = some rd := by
+  intro L
+  induction L with
+  | nil => intro rd pos _; simp [walk]
+  | cons f fs ih =>
+    intro rd pos h
+    cases f with
+    | name =>
+      simp only [plainWalk] at h
+      simp only [walk]
+      obtain ⟨hs, hd⟩ := nameField_plain buf rd.length rd (Nat.le_refl _) pos
+      cases hp : plainName rd with
+      | stop => rw [hp] at h; simp only [hs hp]; rw [heur_inert buf rd pos h]
+      | ptr => rw [hp] at h; simp at h
+      | done n =>
+        rw [hp] at h
+        obtain ⟨hf, hn⟩ := hd n hp
+        simp only [hf, ih (rd.drop n) (pos + n) h]
+        simp
+    | fixed k =>
+      simp only [plainWalk] at h
+      simp only [walk]
+      by_cases hk : rd.length < k
+      · simp only [hk, if_true] at h ⊢; rw [heur_inert buf rd pos h]
+      · simp only [hk, if_false] at h ⊢
+        rw [ih (rd.drop k) (pos + k) h]; simp
+    | cstr =>
+      cases rd with
+      | nil => simp [walk, heur_nil]
+      | cons c rest =>
+        simp only [plainWalk] at h
+        simp only [walk]
+        by_cases hk : (c :: rest).length < 1 + c.toNat
+        · simp only [hk, if_true] at h ⊢; rw [heur_inert buf _ pos h]
+        · simp only [hk, if_false] at h ⊢
+          rw [ih _ _ h]; simp
+
+theorem rrData_plain {buf : Bytes} {off ty : Nat} {data : Bytes} (hp : rdataPlain ty data = true)
+    (hl : data.length ≤ 65535) (hd : (buf.drop off).take data.length = data) :
+    rrData buf off data.length ty = some data := by
+  unfold rrData
+  unfold rdataPlain at hp
+  rw [hd]
+  cases hL : layoutOf ty with
+  | none => rfl
+  | some L =>
+    rw [hL] at hp
+    simp only [walk_plain buf L data off hp]
+    have : ¬ 65535 < data.length := by omega
+    simp [this]
+
 end MitmVerif.C25
